@@ -62,7 +62,8 @@ fam("F1a", """
 a
 x *
 y ~
-""", [S(["a", "a v1", "a v2"]), S(["x k1", "x k1 v1", "x k1 v2"]), S(["x k2", "x k2 v1"]), S(["y t1"]), S(["y t2 w"])])
+""", [S(["a", "a v1", "a v2"]), S(["x k1", "x k1 v1", "x k1 v2"]), S(["x k2", "x k2 v1"]), S(["y t1"])],
+    [S(["a", "a v1", "a v2"]), S(["x k1", "x k1 v1", "x k1 v2"]), S(["x k2", "x k2 v1"]), S(["y t1"]), S(["y t2 w"])])
 
 fam("F1b", """
 p %logic=common.permanent
@@ -127,8 +128,9 @@ undock
 b *
     noise *
     undone
-""", [S(["node a"]), S(["nonegotiate"]), S(["notify g syslog"]), S(["undox k"]), S(["undock"]),
-      S(["b k1"], [S(["noise n"]), S(["undone"])])])
+""", [S(["node a"]), S(["nonegotiate"]), S(["undox k"]), S(["undock"]), S(["b k1"], [S(["noise n"]), S(["undone"])])],
+    [S(["node a", "node a v"]), S(["nonegotiate"]), S(["notify g syslog"]), S(["undox k", "undox k v"]), S(["undock"]),
+     S(["b k1"], [S(["noise n"]), S(["undone"])])])
 
 BLOCK_VENDORS = ["huawei", "cisco", "nexus", "iosxr", "arista", "aruba", "b4com", "h3c", "optixtrans", "pc"]
 
